@@ -380,7 +380,7 @@ func (s *search) run() (states, nodes, transitions, doneDepth int, complete bool
 		if k := c.n.key(); !seen[k] {
 			seen[k] = true
 			next = append(next, c.n)
-			if len(seen)%2000 == 0 {
+			if n := len(seen); n == 5 || n == 200 || n%2000 == 0 {
 				s.r.Sample(map[string]interface{}{"own_key": fmt.Sprintf("K%d", s.cfg.OwnKey), "blocks": c.n.names(fx), "state": c.n.mR.Describe(true)})
 			}
 		}
